@@ -380,7 +380,7 @@ def shaped_trees():
 
     w1 = W([L, S], [L, S, L])
     return [W([L], [S, L]), w1, W([S, L, S], [L]), W([S, S], [L, L]), W([W([L], [S, L])], [L, S]), P(w1, [L, W([S], [L, S, S])]),
-            W([], [S, L, S]), W([L, S, L], [])]
+            W([], [S, L, S]), W([L, S, L], []), W([L, S] * 6, [S, L]), P(L, [S, L] * 6)]
 
 
 def plan(tier, seed):
